@@ -39,15 +39,22 @@ Proof. exact trace_valid_emitted. Qed.
 Theorem payload_or_marker : forall d,
   (has_payload d = true ->
      if d_debug d
-     then lookup K_request_data (assemble d) = Some (JStr (b64 (d_payload d)))
+     then lookup K_request_data (assemble d) = Some (payload_data (d_payload d))
           /\ lookup K_truncated (assemble d) = None /\ lookup K_original_request_bytes (assemble d) = None
      else lookup K_request_data (assemble d) = None
           /\ lookup K_truncated (assemble d) = Some (JStr al_payload_omitted)
-          /\ lookup K_original_request_bytes (assemble d) = Some (JInt (Z.of_nat (length (b64 (d_payload d))))))
+          /\ lookup K_original_request_bytes (assemble d) = Some (JInt (payload_len (d_payload d))))
   /\ (has_payload d = false ->
       lookup K_request_data (assemble d) = None /\ lookup K_truncated (assemble d) = None
       /\ lookup K_original_request_bytes (assemble d) = None).
 Proof. exact payload_xor_marker_lemma. Qed.
+
+(* ... whatever the size of the request: [payload_data] is the base64 text for
+   a payload given in full and, for a large payload handed over by size only,
+   a string of exactly the base64 length — and the two forms agree: base64 of
+   n bytes has 4 * ceil(n / 3) characters, for every byte string. *)
+Theorem payload_size_any : forall s, Z.of_nat (length (b64 s)) = b64len (N.of_nat (length s)).
+Proof. exact b64_length. Qed.
 
 (* Redaction by key name, for every claim list and every key predicate: keys are
    kept, every matched key's value is replaced, nothing else changes. *)
@@ -130,7 +137,7 @@ Proof. exact model_meets_spec. Qed.
    the wire (accesslog: r.ContentLength <= 0 => 0). *)
 Theorem undeclared_length_refuted :
   exists q g, q_egress q = Some g /\ g_content_length g = (-1)%Z /\ (0 < q_wire_request q)%Z
-    /\ nonempty (q_payload q) = true /\ spec_ok [OUnary q] (model [OUnary q]) = false.
+    /\ has_payload_p (q_payload q) = true /\ spec_ok [OUnary q] (model [OUnary q]) = false.
 Proof. exact undeclared_length_witness. Qed.
 
 (* non-vacuity: a well-formed history with a stream opened on the caching node
